@@ -431,6 +431,27 @@ def run(ctx):
     ctx.check(hook, "R3.7", "JsonRecordPacker.unpack:object_hook", "json.loads is not given object_hook=self.unpack_obj", jpu, "json.loads(d, object_hook=self.unpack_obj)",
               key="R3.7:JsonRecordPacker.unpack:no-hook")
 
+    # ------------------------------------------------------------------ R3.8 a grouped record lists the descriptor of every member
+    ctx.rule("R3.8", "GroupedRecord.__init__ appends a member's descriptor to self.descriptors wherever it appends the member to self.records, under no further "
+                     "condition: the packer emits descriptor frames from that list, and a member whose descriptor is left out (same type name as an earlier member, "
+                     "other fields) is written without its definition")
+    gi8 = ctx.anchor_func("flow.record.base.GroupedRecord.__init__")
+    gcfg8 = CFG(gi8)
+    rec_apps = [c for c in calls_in(gi8) if norm(c.func) == "self.records.append" and len(c.args) == 1]
+    desc_apps = [c for c in calls_in(gi8) if norm(c.func) == "self.descriptors.append" and len(c.args) == 1]
+    ctx.floor("R3.8", "member appends in GroupedRecord.__init__", len(rec_apps), 1)
+    for ra in rec_apps:
+        member = norm(ra.args[0])
+        rn = gcfg8.node_of(ra)
+        partner = [d for d in desc_apps if norm(d.args[0]) == f"{member}._desc"]
+        ok8 = False
+        for d in partner:
+            dn = gcfg8.node_of(d)
+            # same control context: each is executed exactly when the other is
+            ok8 |= (gcfg8.dominates(rn.id, dn.id) and gcfg8.postdominates(dn.id, rn.id, normal_only=True)) or (gcfg8.dominates(dn.id, rn.id) and gcfg8.postdominates(rn.id, dn.id, normal_only=True))
+        ctx.check(ok8, "R3.8", f"GroupedRecord.__init__:descriptor-of:{member}", f"`{norm(ra)}` is not always accompanied by `self.descriptors.append({member}._desc)`", ra,
+                  "records and descriptors are appended together", key="R3.8:GroupedRecord.__init__:member-without-descriptor")
+
 
 
 def enclosing_stmt_of(node):
